@@ -348,7 +348,9 @@ def rand_default(rng, ty, is_list):
 
 
 def rand_schema(rng, names=None, depth=0, maxdepth=2, width=5, allow=("int", "float", "bool", "str", "sec"),
-                p_flags=0.3, with_callbacks=False):
+                p_flags=0.3, with_callbacks=False, p_simple=0.0):
+    """p_simple: probability that a top-level scalar option is declared CFG_SIMPLE_* (value in a variable of the caller;
+    only for checks that neither count the library's blocks nor create two contexts from one declaration array)"""
     names = names or Names()
     opts = []
     for _ in range(rng.randint(2 if depth == 0 else 1, width)):
@@ -401,6 +403,9 @@ def rand_schema(rng, names=None, depth=0, maxdepth=2, width=5, allow=("int", "fl
                     cbs += "v"
                 if rng.random() < 0.2:
                     cbs += "w"
+            if depth == 0 and not is_list and rng.random() < p_simple:
+                flags = 0
+                cbs += "s"
             o = Opt(names.new({"int": "i", "float": "f", "bool": "b", "str": "s"}[ty]), ty, flags, d, cbs or "-")
         opts.append(o)
     return opts
